@@ -153,7 +153,9 @@ func project(nodes []core_domain.CodeDataStruct, root string) []TypeObs {
 	return out
 }
 
-func selected(f javagen.File) bool { return f.PathKind == "main" || f.PathKind == "maven" }
+func selected(f javagen.File) bool {
+	return f.PathKind == "main" || f.PathKind == "maven" || f.PathKind == "neartest"
+}
 
 func one(raw json.RawMessage) interface{} {
 	var c Case
